@@ -159,4 +159,27 @@ theorem histos_ok {F : Type} {N A K HH : Nat} {s : BS F} {rb : List Blk} {slack 
     · intro k hk
       exact h.zeroAbove _ hmem (i % K) k hk
 
+/-- exact shape and the sharper total: every histogram has `HH` entries and counts at most the `N` symbols announced -/
+theorem histos_exact {F : Type} {N A K HH : Nat} {s : BS F} {rb : List Blk} {slack : Nat}
+    (h : Inv N A K HH s rb [] slack) (i : Nat) (hi : i < s.numTypes * K) :
+    (s.flat.getD i []).length = HH ∧ (s.flat.getD i []).sum ≤ N := by
+  have hK : 1 ≤ K := by rw [← h.ncEq]; exact h.nc1
+  have hns := numTypes_le_slots h
+  have hd : i = i / K * K + i % K := by rw [Nat.mul_comm]; exact (Nat.div_add_mod i K).symm
+  have hm : i % K < K := Nat.mod_lt _ (by omega)
+  have ht : i / K < s.numTypes := by rw [Nat.div_lt_iff_lt_mul (by omega)]; exact hi
+  rw [hd, flat_getD h _ _ hm]
+  have hmem := slot_mem s (i / K) (by omega)
+  have hsh := h.shaped _ hmem
+  refine ⟨by rw [hsh.getD (i % K) (by rw [h.ncEq]; exact hm), h.hEq], ?_⟩
+  have h1 := h.tot _ ht
+  have h2 : ((s.slots.getD (i / K) []).getD (i % K) []).sum ≤ slotTotal (s.slots.getD (i / K) []) := by
+    unfold slotTotal
+    have := getD_le_sum ((s.slots.getD (i / K) []).map List.sum) (i % K)
+    have e := getD_map_sum (s.slots.getD (i / K) []) (i % K)
+    omega
+  have := h.total
+  simp only [List.length_nil] at this
+  omega
+
 end BV.Greedy
